@@ -6,7 +6,7 @@ from fractions import Fraction
 
 import numpy as np
 
-from harness.common import f2hex, q2s, s2q, run_driver, lean_obligations
+from harness.common import generated_steps, f2hex, q2s, s2q, run_driver, lean_obligations
 from harness.translate import translator_obligations
 from harness.search_deriv import derivative_search
 
@@ -34,6 +34,8 @@ def run(ctx):
     import numdifftools as nd
     from numdifftools.finite_difference import LogRule
     from numdifftools import finite_difference as fdm
+    from harness.common import rule_cache
+    RC = rule_cache(fdm)
     from numdifftools.extrapolation import Richardson
     translator_obligations(ctx, ['LogRule.'])
     lean_obligations(ctx, MODULE, THEOREMS)
@@ -119,7 +121,7 @@ def run(ctx):
             x = Fraction(rng.randint(-8, 8), 4)
             f = lambda t: peval([float(c) for c in cs], t)
             captured.clear()
-            fdm.FD_RULES.clear()
+            RC.clear()
             with warnings.catch_warnings():
                 warnings.simplefilter('ignore')
                 val = nd.Derivative(f, n=n, method=m, order=order)(float(x))
@@ -134,7 +136,7 @@ def run(ctx):
     for j, (m, n, order, cs, x, val, seq, steps, rho, deg, mo) in enumerate(jobs):
         nm = LogRule(n=n, method=m, order=order).diff.__name__
         # the full step list: der_init has len(steps) entries but the rule consumed len(rule)-1 more; regenerate them
-        gen_steps = [float(s) for s in nd.Derivative(lambda t: t, n=n, method=m, order=order)._get_steps(np.asarray(float(x)))[0]]
+        gen_steps = [float(s) for s in generated_steps(nd.Derivative(lambda t: t, n=n, method=m, order=order), np.asarray(float(x)))[0]]
         jobs[j] = jobs[j] + (gen_steps, nm)
         for h in gen_steps:
             qlines.append('quot %s %s %s | %s' % (nm, q2s(x), q2s(Fraction(h)), ' '.join(q2s(c) for c in cs)))
@@ -184,7 +186,7 @@ def run(ctx):
             if abs(val - exact) > bound:
                 ctx.violation('Derivative is not exact (to rounding) on a polynomial of degree < n + method_order', method=m, n=n, order=order,
                               coefficients=list(map(str, cs)), x=str(x), got=val, exact=exact, bound=bound)
-    fdm.FD_RULES.clear()
+    RC.clear()
 
     # ---------------- failing-input search -------------------------------------------------------------------------------
     ctx.search['rule'] = ('random expression programs (depth <= 4) over + - * / integer and real powers exp log sqrt sin cos tan sinh cosh tanh '
